@@ -130,6 +130,11 @@ Theorem C03_mutating_a_result_changes_nothing : forall st m, step st (OMutateRes
 Proof. exact mutating_a_result_changes_nothing. Qed.
 Print Assumptions C03_mutating_a_result_changes_nothing.
 
+(* error paths: a refused call changes nothing (hub uses, remaining sequences of every object) *)
+Theorem C03_refused_call_changes_nothing : forall st e, step st (ORefused e) = (st, ORaise e).
+Proof. exact refused_call_changes_nothing. Qed.
+Print Assumptions C03_refused_call_changes_nothing.
+
 Theorem C03_thub_noniterable_is_identity : forall st z n, step st (OThubVal z n) = (st, OItem z).
 Proof. exact thub_noniterable_is_identity. Qed.
 Print Assumptions C03_thub_noniterable_is_identity.
